@@ -34,3 +34,37 @@ _c.prop = sorted(set(_c.prop) | {"C16"})
 _c.ensures = list(_c.ensures) + ["result is False or upred('unpacked', name)"]
 _c.options = dict(_c.options, callee_contracts=dict(_c.options.get("callee_contracts", {}),
                   **{"DiskRefsContainer._remove_packed_ref": ("<abstract>", "DiskRefsContainer._remove_packed_ref@ghost")}))
+
+# ---- the in-memory backend IS the map model: every mutator as a function of the whole map ----------------------------
+# (the postconditions speak about the whole dict - keys other than `name` are untouched - not only about the touched entry)
+from pyvc.contract import class_spec
+class_spec(file=R, cls="DictRefsContainer", fields={"_refs": "dict[opaque,opaque]"}, stable=["_refs"],
+           mutators=["set_if_equals", "add_if_new", "remove_if_equals"])
+UNCH = ["dict_same(old(self._refs), self._refs)"]
+CUR = "(dict_get(old(self._refs), name) if dict_has(old(self._refs), name) else ZERO_SHA)"
+DOPT = {"default_param": "opaque", "eq_symmetric": True}      # `==` between untracked values is symmetric (stated axiom)
+contract(
+    prop=["C16"], file=R, func="DictRefsContainer.set_if_equals",
+    params={"self": "obj:DictRefsContainer", "name": "opaque", "old_ref": "opaque?", "new_ref": "opaque"}, returns="bool",
+    # on failure (value check, name check, or a reflog / watcher error AFTER the write) the map is the old one or the intended new one
+    modifies=["self._refs"], raises={ANY: ["dict_same(old(self._refs), self._refs) or dict_set(old(self._refs), self._refs, name, new_ref)"]},
+    ensures=[f"result == (old_ref is None or {CUR} == old_ref)",
+             "dict_set(old(self._refs), self._refs, name, new_ref) if result else dict_same(old(self._refs), self._refs)"],
+    options=DOPT,
+)
+contract(
+    prop=["C16"], file=R, func="DictRefsContainer.add_if_new",
+    params={"self": "obj:DictRefsContainer", "name": "opaque", "ref": "opaque"}, returns="bool",
+    modifies=["self._refs"], raises={ANY: ["dict_same(old(self._refs), self._refs) or dict_set(old(self._refs), self._refs, name, ref)"]},
+    ensures=["result == (not dict_has(old(self._refs), name))",
+             "dict_set(old(self._refs), self._refs, name, ref) if result else dict_same(old(self._refs), self._refs)"],
+    options=DOPT,
+)
+contract(
+    prop=["C16"], file=R, func="DictRefsContainer.remove_if_equals",
+    params={"self": "obj:DictRefsContainer", "name": "opaque", "old_ref": "opaque?"}, returns="bool",
+    modifies=["self._refs"], raises={ANY: ["dict_same(old(self._refs), self._refs) or dict_del(old(self._refs), self._refs, name)"]},
+    ensures=[f"result == (old_ref is None or {CUR} == old_ref)",
+             "dict_del(old(self._refs), self._refs, name) if result else dict_same(old(self._refs), self._refs)"],
+    options=DOPT,
+)
